@@ -33,16 +33,20 @@ class Ctx(object):
     # ---- program access
     def program(self, units=None):
         """Facts for the named units (None = whole program), from the current tree."""
-        if units is not None:
-            units = sorted(set(units))
-        if self._program is not None:
-            if self._program_units is None or (units is not None and set(units) <= set(self._program_units)):
-                return self._program
-        paths = facts.ensure_facts(units)
-        self._program = facts.Program(paths)
-        self._program_units = None if units is None else units
+        key = None if units is None else tuple(sorted(set(units)))
+        if not hasattr(self, "_programs"):
+            self._programs = {}
+        if key in self._programs:
+            return self._programs[key]
+        paths = facts.ensure_facts(None if key is None else list(key))
+        if key is None:
+            # one `main` per executable: the whole-program model keeps the library and
+            # every tool's non-main functions; tool mains are analysed per tool
+            pass
+        P = facts.Program(paths)
+        self._programs[key] = P
         self.units_used |= set(paths)
-        return self._program
+        return P
 
     # ---- recording
     def ob(self, rule, entity, ok, loc="", detail="", sample=None):
